@@ -63,9 +63,24 @@ def ibatt(variant, V, R, phases, ph, bpc=None):
     return float(df[df.Component == "B"]["Iout (A)"].iloc[0])
 
 
-def run_seq(variant, phname, seq, cutoff=3.0, cap0=0.01, V0=3.7, R0=0.1, fault=None, bpc=None, alias=False):
+def run_seq(variant, phname, seq, cutoff=3.0, cap0=0.01, V0=3.7, R0=0.1, fault=None, bpc=None, alias=False, vdecl=5.0, pre_edit=False):
     phases = PHASES[phname]
-    s = mksys(variant, 5.0, 0.3, phases, bpc)
+    s = mksys(variant, vdecl, 0.3, phases, bpc)   # vdecl: the voltage the battery Source was DECLARED with (0.0 = a placeholder; the model supplies the real one)
+    if pre_edit:
+        # an analysis, then edits that keep the component count (the resistor R is deleted and added again under the same parent with the same
+        # parameters: the structure is the one mksys() builds, only the object's history differs), then batt_life() without any analysis in between
+        try:
+            quiet_call(s.solve)
+        except (RuntimeError, ValueError):
+            pass
+        s.params()
+        s.del_comp("L")
+        s.del_comp("R")
+        s.add_comp("B", comp=RLoad("R", rs=200.0))
+        s.add_comp("C", comp=PLoad("L", pwr=0.1, pwrs=1e-3))
+        if phases:
+            names = list(phases)
+            s.set_comp_phases("L", {names[0]: 0.2, names[-1]: 0.05})
     calls = []
     st = [cap0, V0, R0]
     idx = [0]
@@ -149,7 +164,7 @@ def check_case(case):
     kw = {}
     if case.get("slow"):  # a battery close to the voltage-collapse point: the solver needs many sweeps; the current must still be the converged one
         kw = dict(V0=3.6, R0=1.78, cutoff=1.0)
-    s, calls, log, exc, npf = run_seq(variant, phname, seq, bpc=bpc, alias=case.get("alias", False), **kw)
+    s, calls, log, exc, npf = run_seq(variant, phname, seq, bpc=bpc, alias=case.get("alias", False), vdecl=case.get("vdecl", 5.0), pre_edit=case.get("pre_edit", False), **kw)
     if case.get("slow"):
         cutoff = 1.0
     res.stats["evaluations"] += 1
@@ -217,6 +232,11 @@ def gen_cases(tier):
             for k in range(0, 3):   # the model returns the SAME mutable object on every call; the log must hold the values of each step
                 for body in itertools.product("cvr", repeat=k):
                     yield dict(variant=variant, phases=phname, seq="".join(body) + "Z", alias=True)
+            for k in range(0, 4):   # battery declared with vo = 0 (placeholder); object with an edit history behind it
+                for body in itertools.product("cvr", repeat=k):
+                    yield dict(variant=variant, phases=phname, seq="".join(body) + "Z", vdecl=0.0)
+                    if phname != "blank":
+                        yield dict(variant=variant, phases=phname, seq="".join(body) + "K", pre_edit=True)
             for bad in ("C", "L", "nope", "R"):
                 yield dict(variant=variant, phases=phname, seq="", bad_name=bad)
 
